@@ -385,6 +385,28 @@ def detection_catalog_probe(rep, r, c):
             return
     rep.case(('detcat', c['seg'].tobytes(), c['data'].tobytes(), lw), True, kind=f'detection_cat:localbkg{lw}')
     rep.probe_only += 1
+    # a sliced / reordered detection catalogue shares the segmentation image but not the row order: it is either rejected or its rows are
+    # matched by label - never silently used row by row (defect F72)
+    if len(labels) >= 2:
+        with warnings.catch_warnings():
+            warnings.simplefilter('ignore')
+            full_x = np.atleast_1d(np.asarray(cat.xcentroid, float))
+            for what, sub in (('reversed', det[::-1]), ('subset', det[[0]])):
+                try:
+                    c2 = SourceCatalog(c['data'], SegmentationImage(c['seg'].copy()), error=c['err'], mask=c['mask'], background=c['bkg'], detection_cat=sub,
+                                       localbkg_width=lw)
+                    x2 = np.atleast_1d(np.asarray(c2.xcentroid, float))
+                    l2 = [int(v) for v in np.atleast_1d(c2.labels)]
+                except (ValueError, TypeError):
+                    continue                                    # rejected: fine
+                except Exception as e:                          # noqa: BLE001
+                    rep.violation(f'catalog-raises:detection_cat-{what}:{type(e).__name__}', f'SourceCatalog(detection_cat=<{what} catalogue>) raised {e!r}', rp)
+                    return
+                exp2 = [full_x[labels.index(l_)] for l_ in l2] if all(l_ in labels for l_ in l2) else None
+                if exp2 is None or len(x2) != len(l2) or not np.allclose(x2, exp2, equal_nan=True):
+                    rep.violation(f'detection_cat-rows-misassigned:{what}', f'a {what} detection catalogue was accepted: labels {l2}, xcentroid {x2.tolist()}; the detection '
+                                  f'catalogue gives {dict(zip(labels, full_x.tolist()))} for these labels', rp)
+                    return
     for i, lab in enumerate(labels):
         good = (c['seg'] == lab) & np.isfinite(c['data'])
         if c['mask'] is not None:
